@@ -8,13 +8,13 @@ tails, duplicates and equal-hash subtrees are the norm rather than measure zero.
 """
 import random
 
-SIZES = {'u8': 1, 'u16': 2, 'u32': 4, 'u64': 8, 'u128': 16, 'u256': 32, 'h256': 32, 'pair': 16, 'var': None, 'nl': None}
-PF = {'u8': 32, 'u16': 16, 'u32': 8, 'u64': 4, 'u128': 2, 'u256': 1}
+SIZES = {'u8': 1, 'u16': 2, 'u32': 4, 'u64': 8, 'u128': 16, 'u256': 32, 'h256': 32, 'pair': 16, 'var': None, 'nl': None, 'fu64': 8}
+PF = {'u8': 32, 'u16': 16, 'u32': 8, 'u64': 4, 'u128': 2, 'u256': 1, 'fu64': 4}
 USIZE_MAX = 2 ** 64 - 1
 SMALL_NS = [1, 2, 3, 4, 5, 7, 8, 9, 16, 17, 32, 33, 64]
 ALL_NS = SMALL_NS + [1024, 2 ** 40]
 DEEP_NS = [2 ** 48, 2 ** 49, 2 ** 63]
-KINDS = list(SIZES)
+KINDS = [k for k in SIZES if k != 'fu64']      # fu64 (fault injection) is used by the `fault` family only
 MAPS = ['max', 'vec', 'bt']
 
 
@@ -733,7 +733,7 @@ def fam_bulk(cfg, rng):
     if rng.random() < 0.5:
         h.hash(0)
     room = min(cfg.n - n, 6)
-    kind = rng.choice(['ok', 'ok', 'ok', 'gap', 'oob', 'full', 'huge', 'unclean', 'empty'])
+    kind = rng.choice(['ok', 'ok', 'ok', 'gap', 'oob', 'full', 'overshoot', 'overshoot', 'huge', 'unclean', 'empty'])
     keys = []
     over = rng.sample(range(n), min(n, rng.randint(0, 3))) if n else []
     ext = rng.randint(0, room) if room > 0 else 0
@@ -744,6 +744,9 @@ def fam_bulk(cfg, rng):
         keys.append(cfg.n + rng.randint(0, 2))
     elif kind == 'full':
         keys = list(range(n, min(cfg.n, n + 40) + 1)) if cfg.n - n <= 40 else keys
+    elif kind == 'overshoot':
+        # a contiguous extension that runs past the capacity by one, two or more
+        keys = (over + list(range(n, cfg.n + rng.choice([1, 2, 2, 3, 5])))) if cfg.n - n <= 40 else keys
     elif kind == 'huge':
         keys.append(USIZE_MAX if cfg.map == 'bt' else 60000)
     elif kind == 'unclean' and n:
@@ -951,6 +954,44 @@ def fam_par(cfg, rng):
     return h
 
 
+def fam_fault(cfg, rng):
+    """Fault injection (kind fu64 only): a panic inside the element type's own tree-hash callback, at the k-th
+    call, while a root is being computed; the caller catches it and carries on. Afterwards every memoised hash
+    must still be true and every later root correct, on the collection and on everything that shares nodes."""
+    h = H(cfg, rng, 'fault')
+    kind = rng.choice(['L', 'L', 'V']) if cfg.n <= 64 else 'L'
+    n = cfg.n if kind == 'V' else rng.randint(1, max(1, h.maxlen(40)))
+    vs = h.vals(n, rng.choice(['mixed', 'mixed', 'same', 'zero_tail']))
+    if kind == 'L':
+        h.new_list(0, vs)
+    else:
+        h.new_vec(0, vs)
+    if 0 not in h.regs:
+        return h
+    for rnd in range(rng.randint(1, 3)):
+        c = rng.random()
+        if c < 0.4:
+            h.hash(0)                       # fully hashed, then dirtied below: partially memoised tree
+        for _ in range(rng.randint(0, 3)):
+            if rng.random() < 0.6 or kind == 'V':
+                h.write(0, how=rng.choice(['set', 'cow_make']))
+            else:
+                h.push(0)
+        h.apply(0)
+        if rng.random() < 0.5:
+            h.clone(0, 1)
+        h.emit('fault %d' % rng.choice([1, 1, 2, 2, 3, 4, 5, 7, 9, 30]))
+        h.emit(rng.choice(['hash h0', 'hash h0', 'par_hash h0 4']))
+        h.hash(0)
+        if 1 in h.regs and rng.random() < 0.7:
+            h.hash(1)
+        h.check_fresh(0)
+    if 1 in h.regs:
+        h.apply(1)
+        h.check_fresh(1)
+    return h
+
+
 def fam_cost(cfg, rng):
     """clone, then flush k writes / pop_front on the original: the clone keeps the old tree alive so
     that sharing between the two versions is observable"""
@@ -983,8 +1024,19 @@ FAMILIES = {
     'crud': fam_crud, 'versions': fam_versions, 'hash_placement': fam_hash_placement,
     'rebase_pairs': fam_rebase_pairs, 'intra': fam_intra, 'suffix': fam_suffix,
     'capacity': fam_capacity, 'bulk': fam_bulk, 'codec': fam_codec, 'invalid_args': fam_invalid,
-    'builder': fam_builder, 'builder_nodes': fam_builder_nodes, 'big': fam_big, 'deep': fam_deep, 'par': fam_par, 'cost': fam_cost,
+    'builder': fam_builder, 'builder_nodes': fam_builder_nodes, 'big': fam_big, 'deep': fam_deep, 'par': fam_par, 'cost': fam_cost, 'fault': fam_fault,
 }
+
+
+def epilogue(h):
+    """Final audit: request the root of EVERY live handle (flushing it first if necessary), so that damage done
+    to a relative that the scenario itself no longer looks at (a memo written into a shared node, a node swapped
+    under a clone) still surfaces as a wrong root."""
+    for r in sorted(h.regs):
+        st = h.regs[r]
+        if st['p']:
+            h.apply(r)
+        h.hash(r)
 
 
 def pick_cfg(rng, family, big_ok=True):
@@ -992,6 +1044,8 @@ def pick_cfg(rng, family, big_ok=True):
         return Cfg(rng.choice(['u64', 'u8', 'h256']), rng.choice(DEEP_NS), rng.choice(MAPS))
     if family == 'big':
         return Cfg(rng.choice(KINDS), 2 ** 40, rng.choice(MAPS))
+    if family == 'fault':
+        return Cfg('fu64', rng.choice(SMALL_NS + [1024]), rng.choice(MAPS))
     if family == 'par' and rng.random() < 0.25:
         # deep trees: zero-subtree hashes beyond the precomputed table are computed at run time
         return Cfg(rng.choice(['u64', 'u8', 'h256']), rng.choice(DEEP_NS + [2 ** 40]), rng.choice(MAPS))
@@ -1012,6 +1066,7 @@ def generate(seed, families, count):
         cfg = pick_cfg(rng, fam)
         sub = random.Random(rng.getrandbits(64))
         h = FAMILIES[fam](cfg, sub)
+        epilogue(h)
         out.append(h)
     return out
 
